@@ -12,7 +12,23 @@ if os.environ.get("VERIF_REPO"):
 import bn  # noqa: E402
 
 
-def record_control(tid: str, tt, seed: int, calls: int, with_history: bool) -> dict:
+def grid_calls(n: int):
+    """deterministic argument grid for the hand-built networks: every single-literal target under both strategies (unbounded
+    for the internal strategy, bound 2 for 'all': pairs of override nodes), and the positive pair targets under 'all'"""
+    for i in range(n):
+        for v in (0, 1):
+            t = [2] * n
+            t[i] = v
+            yield {"target": t, "strategy": "internal", "bound": -1, "forbidden": [], "sonly": True, "skipff": False}
+            yield {"target": t, "strategy": "all", "bound": 2, "forbidden": [], "sonly": True, "skipff": False}
+    for i in range(n):
+        for j in range(i + 1, n):
+            t = [2] * n
+            t[i] = t[j] = 1
+            yield {"target": t, "strategy": "all", "bound": 2, "forbidden": [], "sonly": True, "skipff": False}
+
+
+def record_control(tid: str, tt, seed: int, calls: int, with_history: bool, grid: bool = False) -> dict:
     devnull = os.open(os.devnull, os.O_WRONLY)
     os.dup2(devnull, 2)
     import rec
@@ -21,12 +37,21 @@ def record_control(tid: str, tt, seed: int, calls: int, with_history: bool) -> d
     rng = random.Random(seed)
     n = len(tt)
     events = []
-    for _ in range(calls):
+    gridit = iter(list(grid_calls(n))) if grid else None
+    while True:
+        if grid:
+            fixed = next(gridit, None)
+            if fixed is None:
+                break
+        else:
+            fixed = None
+            if len(events) >= calls:
+                break
         sd = rec.make_sd(tt)
         names = rec.var_names(sd)
         fresh = True
         hist = []
-        if with_history and rng.random() < 0.7:
+        if with_history and fixed is None and rng.random() < 0.7:
             fresh = False
             for _k in range(rng.randint(1, 3)):
                 op = gen.random_op(rng, ["exp", "bfs", "dfs", "min", "minskip", "skipmin", "skiprem", "block", "scc", "tgt", "aseeds"],
@@ -42,6 +67,9 @@ def record_control(tid: str, tt, seed: int, calls: int, with_history: bool) -> d
              "forbidden": sorted(rng.sample(range(1, n + 1), rng.choice([0, 0, 1, 2]) if n >= 2 else 0)),
              "sonly": rng.random() < 0.5, "skipff": (not fresh) and rng.random() < 0.3, "fresh": fresh, "raised": False,
              "exc": "", "res": [], "hist": hist, "k": "control"}
+        if fixed is not None:
+            e.update(fixed)
+            target = e["target"]
         import signal
 
         def _alarm(_s, _f):
@@ -68,7 +96,7 @@ def record_control(tid: str, tt, seed: int, calls: int, with_history: bool) -> d
 
 
 def _work(task):
-    return json.dumps(record_control(task["tid"], task["tt"], task["seed"], task["calls"], task["with_history"]))
+    return json.dumps(record_control(task["tid"], task["tt"], task["seed"], task["calls"], task["with_history"], task.get("grid", False)))
 
 
 def record_many(tasks, outfile, procs=16):
